@@ -1,0 +1,26 @@
+//go:build verif
+
+// Contracts for the govc verification-condition generator (see /verif/DESIGN.md).
+// This file contains no code: it is only compiled with the build tag "verif" and holds the loop
+// invariants and function contracts as structured comments, keyed by function name and loop ordinal
+// (loops are numbered in source order within a function). Expressions are S-expressions over the
+// function's parameters, its loop variables (by source name; the hidden index of a `range` loop is
+// called rangeindex and is the index of the last element already visited, starting at -1), `result`,
+// and the uninterpreted specification predicates itemsEq (meaning of ItemsEqual) and iriEq (meaning of
+// IRI.Equals).
+
+package activitypub
+
+//@ func (NaturalLanguageValues).Get
+//@ loop 0
+//@   invariant (and (<= -1 rangeindex) (< rangeindex (len n)))
+//@   invariant (forall (k) (=> (and (<= 0 k) (<= k rangeindex)) (not (= (field (at n k) Ref) ref))))
+
+//@ func (*NaturalLanguageValues).Set
+//@ loop 0
+//@   invariant (and (<= -1 rangeindex) (< rangeindex (len (old (deref n)))))
+//@   invariant (= (len (deref n)) (len (old (deref n))))
+//@   invariant (forall (k) (=> (and (<= 0 k) (< k (len (deref n)))) (= (field (at (deref n) k) Ref) (field (at (old (deref n)) k) Ref))))
+//@   invariant (forall (k) (=> (and (<= 0 k) (<= k rangeindex) (= (field (at (old (deref n)) k) Ref) ref)) (= (field (at (deref n) k) Value) v)))
+//@   invariant (forall (k) (=> (and (<= 0 k) (< k (len (deref n))) (or (> k rangeindex) (not (= (field (at (old (deref n)) k) Ref) ref)))) (= (field (at (deref n) k) Value) (field (at (old (deref n)) k) Value))))
+//@   invariant (= found (exists (k) (and (<= 0 k) (<= k rangeindex) (= (field (at (old (deref n)) k) Ref) ref))))
